@@ -98,11 +98,11 @@ def dataclass_fields(cls: ClassInfo) -> list[str]:
 class ActorInterp(Interp):
     """Interprets methods of the actor class; `opaque` methods become recorded events."""
 
-    def __init__(self, prog: Program, cls: ClassInfo, opaque: Iterable[str]) -> None:
+    def __init__(self, prog: Program, cls: ClassInfo, opaque: dict[str, str]) -> None:
         super().__init__()
         self.prog = prog
         self.cls = cls
-        self.opaque = set(opaque)
+        self.opaque = dict(opaque)  # method name -> role ("calc", "shift", "su", "reports", "tracker")
         algo = prog.cls(ALGO)
         self.algo_params: dict[str, list[str]] = {}
         for m in ("calculate_target_power", "get_target_power", "get_status"):
@@ -368,18 +368,20 @@ class ActorInterp(Interp):
         return val
 
     def actor_call(self, name: str, pos: list[Any], kw: dict[str, Any], node: ast.AST) -> Any:
+        """A call of another role holder: not followed, recorded as an event named after the role."""
+        role = self.opaque[name]
         fi = self.prog.resolve_method(self.cls, name)
         if fi is None:
             raise AnalysisError(f"anchor {self.cls.qual}.{name} not found")
         a = by_name(fi.params[1:], pos, kw, f"self.{name}")
         vals = [a.get(p, _MISSING) for p in fi.params[1:]]
-        if name == "_calculate_shifted_bounds":
+        if role == "shift":
             if len(vals) < 2 or vals[0] is _MISSING or vals[1] is _MISSING:
-                raise AnalysisError("_calculate_shifted_bounds call shape not recognised")
+                raise AnalysisError(f"{name} call shape not recognised")
             return Obj("Shifted", base=vals[0], by=vals[1])
-        ev: dict[str, Any] = {"kind": name, "args": vals, "node": node, "cache": dict(self.cache)}
-        if name == "_calculate_target_power":
-            if self.choose(2, "_calculate_target_power returns a power") == 1:
+        ev: dict[str, Any] = {"kind": role, "args": vals, "node": node, "cache": dict(self.cache)}
+        if role == "calc":
+            if self.choose(2, f"{name} returns a power") == 1:
                 ev["result"] = Sym("target_power")
             else:
                 ev["result"] = None
@@ -513,13 +515,40 @@ class ResolverInterp(Interp):
     unequal to the stored one, must_return_power.  `_calc_target_power` and
     `_validate_component_ids` are opaque (C03 decides them); other private helpers are interpreted."""
 
-    OPAQUE = ("_calc_target_power", "_validate_component_ids")
+    HINTS = {"sweep": "_calc_target_power", "validate": "_validate_component_ids"}
 
     def __init__(self, prog: Program, cls: ClassInfo) -> None:
         super().__init__()
         self.prog = prog
         self.cls = cls
+        self.opaque = self.bind_opaque()  # method name -> role
         self.reset()
+
+    def bind_opaque(self) -> dict[str, str]:
+        """The two methods that are not followed: the proposal sweep (computes a target from a
+        bucket and bounds) and the id validation.  The historical names are hints; otherwise the
+        sweep is the reachable private method that loops over its own first parameter and the
+        validation the one that raises NotImplementedError (overlapping groups)."""
+        out: dict[str, str] = {}
+        root = self.cls.methods.get("calculate_target_power")
+        reach = reachable_methods(self.prog, self.cls, root)[1:] if root is not None else []
+        for role, hint in self.HINTS.items():
+            if hint in self.cls.methods:
+                out[hint] = role
+                continue
+            for m in reach:
+                first = m.params[1] if len(m.params) > 1 else None
+                if role == "sweep" and first is not None and any(
+                        isinstance(n, ast.For) and any(isinstance(x, ast.Name) and x.id == first
+                                                       for x in ast.walk(n.iter)) for n in ast.walk(m.node)):
+                    out[m.name] = role
+                    break
+                if role == "validate" and any(
+                        isinstance(n, ast.Raise) and n.exc is not None and "NotImplementedError" in ast.unparse(n.exc)
+                        for n in ast.walk(m.node)):
+                    out[m.name] = role
+                    break
+        return out
 
     def reset(self) -> None:
         self.bucket = "absent"            # absent | empty | nonempty | unknown
@@ -584,7 +613,7 @@ class ResolverInterp(Interp):
                 return Obj("Buckets")
             if attr == "_target_power":
                 return Obj("Targets")
-            if attr in self.OPAQUE:
+            if attr in self.opaque:
                 return ("resolver", attr)
             m = self.prog.resolve_method(self.cls, attr)
             if m is not None and m.cls is not None:
@@ -662,9 +691,9 @@ class ResolverInterp(Interp):
                 raise AnalysisError(f"anchor Matryoshka.{fn[1]} not found")
             a = by_name(fi2.params[1:], pos, kw, f"self.{fn[1]}")
             vals = [a.get(p, _MISSING) for p in fi2.params[1:]]
-            if fn[1] == "_validate_component_ids":
+            if self.opaque[fn[1]] == "validate":
                 if not vals or vals[0] is not self.ids:
-                    raise AnalysisError("_validate_component_ids call shape not recognised")
+                    raise AnalysisError(f"{fn[1]} call shape not recognised")
                 self.valid = not self.fork("valid", "component ids fail validation", node)
                 return self.valid
             fresh = Sym("fresh_target")
@@ -751,6 +780,98 @@ def reachable_methods(prog: Program, cls: ClassInfo, root: FuncInfo, stop: Itera
     return out
 
 
+# ------------------------------------------------------------------------------ roles
+ROLE_HINTS = {"calc": "_calculate_target_power", "shift": "_calculate_shifted_bounds",
+              "su": "_send_updated_target_power", "reports": "_send_reports", "tracker": "_bounds_tracker"}
+
+
+def _self_refs(fn: ast.AST) -> list[str]:
+    """Names m of `self.m` mentioned in the function, in source order."""
+    out: list[str] = []
+    for n in walk_no_nested(fn):
+        if isinstance(n, ast.Attribute) and isinstance(n.value, ast.Name) and n.value.id == "self" and n.attr not in out:
+            out.append(n.attr)
+    return out
+
+
+def _uses_attr(fn: ast.AST, attr: str, load_only: bool = False) -> bool:
+    return any(isinstance(n, ast.Attribute) and n.attr == attr and (not load_only or isinstance(n.ctx, ast.Load))
+               for n in ast.walk(fn))
+
+
+def _builds_system_bounds(fn: ast.AST) -> bool:
+    for n in ast.walk(fn):
+        if isinstance(n, ast.Call):
+            last = ast.unparse(n.func).split(".")[-1]
+            if last == "SystemBounds" or (last == "replace" and any(k.arg == "inclusion_bounds" for k in n.keywords)):
+                return True
+    return False
+
+
+def resolve_roles(prog: Program, cls: ClassInfo) -> dict[str, FuncInfo]:
+    """Which method of the actor plays which role.  The historical name is only a hint; otherwise a
+    role is bound by what the method does / who calls it:
+
+      run      the Actor entry point `_run`
+      su       called from `_run`, reaches the requests sender ("send the updated target power")
+      calc     called from `su`, reaches the groups' calculate_target_power; `su` itself if the
+               computation was inlined there (combined mode)
+      shift    builds a SystemBounds and is reached from the method that calls the groups'
+               calculate_target_power (its result is the bounds handed to the second group)
+      reports  called from `_run`, reaches the groups' get_status
+      tracker  consumes a receiver (`async for`) and reaches a write of self._system_bounds[...]
+
+    AnalysisError only if no method (or more than one) plays a role."""
+    M = cls.methods
+    if "_run" not in M:
+        raise AnalysisError(f"{cls.qual}._run not found")
+    roles: dict[str, FuncInfo] = {"run": M["_run"]}
+
+    def reach(fi: FuncInfo) -> list[FuncInfo]:
+        return reachable_methods(prog, cls, fi)
+
+    def own(name: str) -> FuncInfo | None:
+        m = M.get(name)
+        return m if m is not None and m.name not in ("_run", "__init__") else None
+
+    def choose(role: str, cands: list[FuncInfo]) -> FuncInfo:
+        hint = M.get(ROLE_HINTS[role])
+        if hint is not None:
+            return hint
+        uniq = list({c.name: c for c in cands}.values())
+        if len(uniq) != 1:
+            raise AnalysisError(f"{cls.qual}: {len(uniq)} methods play the role of {ROLE_HINTS[role]} "
+                                f"({[c.name for c in uniq]})")
+        return uniq[0]
+
+    from_run = [m for m in (own(n) for n in _self_refs(M["_run"].node)) if m is not None]
+    resolvers = [m for m in M.values() if _uses_attr(m.node, "calculate_target_power")]
+    roles["shift"] = choose("shift", [m for m in M.values() if m.name != "__init__" and _builds_system_bounds(m.node)
+                                      and any(m in reach(r)[1:] for r in resolvers)])
+    roles["su"] = choose("su", [m for m in from_run if any(
+        _uses_attr(r.node, REQ_SENDER_ATTR, load_only=True) for r in reach(m))])
+    su = roles["su"]
+    callees = [m for m in (own(n) for n in _self_refs(su.node)) if m is not None and m is not su]
+    calc_c = [m for m in callees if m is not roles["shift"]
+              and any(_uses_attr(r.node, "calculate_target_power") for r in reach(m))]
+    if ROLE_HINTS["calc"] not in M and (not calc_c or _uses_attr(su.node, "calculate_target_power")):
+        roles["calc"] = su  # the computation lives in `su` itself
+    else:
+        roles["calc"] = choose("calc", calc_c)
+    roles["reports"] = choose("reports", [m for m in from_run if m is not su and any(
+        _uses_attr(r.node, "get_status") for r in reach(m))])
+    roles["tracker"] = choose("tracker", [
+        m for m in M.values() if m.name not in ("_run", "__init__")
+        and any(isinstance(n, ast.AsyncFor) for n in ast.walk(m.node))
+        and any(_direct_cache_write(r.node) for r in reach(m))])
+    return roles
+
+
+def opaque_for(roles: dict[str, FuncInfo], me: FuncInfo) -> dict[str, str]:
+    """The role holders other than the analysed function (name -> role)."""
+    return {fi.name: role for role, fi in roles.items() if role != "run" and fi is not me}
+
+
 # ------------------------------------------------------------------------------ control builders
 def _direct_cache_write(node: ast.AST) -> bool:
     return any(isinstance(t, ast.Subscript) and isinstance(t.ctx, ast.Store)
@@ -821,17 +942,22 @@ def structural_controls(prog: Program, actor: str, module: str,
     mod = prog.module(module)
     src = mod.source
     cls = prog.cls(actor)
-    stop = {"_calculate_shifted_bounds", "_calculate_target_power", "_send_updated_target_power",
-            "_send_reports"}
+    try:
+        roles = resolve_roles(prog, cls)
+    except AnalysisError:
+        return list(fallback)
+    stop = {fi.name for role, fi in roles.items() if role in ("shift", "calc", "su", "reports")}
+    names = {role: fi.name for role, fi in roles.items()}
     built: dict[str, str] = {}
 
-    def method(name: str) -> FuncInfo | None:
-        return cls.methods.get(name)
+    def method(hint: str) -> FuncInfo | None:
+        role = next((r for r, h in ROLE_HINTS.items() if h == hint), None)
+        return roles.get(role) if role is not None else cls.methods.get(hint)
 
     # 1. the sum of both targets loses one operand
     calc = method("_calculate_target_power")
     if calc is not None:
-        for fi in reachable_methods(prog, cls, calc, stop - {"_calculate_target_power"}):
+        for fi in reachable_methods(prog, cls, calc, stop - {calc.name}):
             if fi.module is not mod:
                 continue
             adds = [n for n in walk_no_nested(fi.node) if isinstance(n, ast.BinOp) and isinstance(n.op, ast.Add)]
@@ -865,7 +991,7 @@ def structural_controls(prog: Program, actor: str, module: str,
                                                           ast.With, ast.AsyncWith))
                       and _writes_cache(prog, cls, s, stop)]
                 up = [s for s in suite if any(
-                    isinstance(c, ast.Attribute) and c.attr == "_send_updated_target_power" for c in ast.walk(s))]
+                    isinstance(c, ast.Attribute) and c.attr == names["su"] for c in ast.walk(s))]
                 if st and up and suite.index(st[0]) < suite.index(up[0]):
                     a, b = st[0], up[0]
                     lines = src.splitlines(keepends=True)
@@ -877,11 +1003,11 @@ def structural_controls(prog: Program, actor: str, module: str,
     # 4. regular reports are computed against the unshifted bounds
     sr = method("_send_reports")
     if sr is not None and sh is not None:
-        for fi in reachable_methods(prog, cls, sr, stop - {"_send_reports"}):
+        for fi in reachable_methods(prog, cls, sr, stop - {sr.name}):
             if fi.module is not mod:
                 continue
             calls = [n for n in walk_no_nested(fi.node) if isinstance(n, ast.Call)
-                     and isinstance(n.func, ast.Attribute) and n.func.attr == "_calculate_shifted_bounds"]
+                     and isinstance(n.func, ast.Attribute) and n.func.attr == names["shift"]]
             if calls:
                 c = calls[0]
                 first: ast.AST | None = c.args[0] if c.args else None
@@ -929,7 +1055,7 @@ def structural_controls(prog: Program, actor: str, module: str,
                     continue
                 for a, b in zip(suite, suite[1:]):
                     if isinstance(a, ast.Expr) and isinstance(b, ast.Expr) \
-                            and "_send_updated_target_power" in ast.unparse(a) and "_send_reports" in ast.unparse(b) \
+                            and f"self.{names['su']}(" in ast.unparse(a) and f"self.{names['reports']}(" in ast.unparse(b) \
                             and "reports dropped after a proposal" not in built:
                         built["reports dropped after a proposal"] = _splice(src, b, "pass")
     # 7. the report carries something else than the stored target
